@@ -328,7 +328,7 @@ func (propC17) Check(k *Kernel, cov *Coverage) *Violation {
 			so.ClientIdx = 0
 		}
 		solo := &Plan{Prop: k.Plan.Prop, World: k.Plan.World, Mode: k.Plan.Mode, Clients: soloClients, BaseSlash: k.Plan.BaseSlash,
-			SharedHTTP: k.Plan.SharedHTTP, Ops: []*Op{so}}
+			SharedHTTP: k.Plan.SharedHTTP, MountPrefix: k.Plan.MountPrefix, Ops: []*Op{so}}
 		ks := RunPlan(soloT, k.W, solo, false)
 		if len(ks.Panics) > 0 {
 			continue
